@@ -207,8 +207,7 @@ func (g *Group) RandCoord(r *Rng) reflect.Value {
 // ToExt converts an affine point into extended Jacobian coordinates (X, Y, ZZ=1, ZZZ=1) or infinity.
 func (g *Group) ToExt(a reflect.Value) reflect.Value {
 	e := g.NewExt()
-	sh := g.C.shim(g.lower + "JacExtended.SetInfinity")
-	sh.Call([]reflect.Value{e})
+	// the zero value (ZZ = 0) is the point at infinity
 	if method(a, "IsInfinity").Call(nil)[0].Bool() {
 		return e
 	}
